@@ -699,3 +699,262 @@ def desugar_match(repo: Repo) -> int:
                     break
     return done
 
+
+
+# ---------------------------------------------------------------------
+# a container that is changed in size while a loop is iterating it
+#
+# key of a container: the access path that names the object - ("param", name, attr, ...) for a parameter (`self` is one)
+# and what hangs off it, ("local", name, <reaching definitions>, attr, ...) for a local that is not a plain alias; a
+# local bound once to such a path is that path (`callbacks = self._on_close`).
+
+SHRINKERS = {"remove", "pop", "popitem", "clear", "insert", "discard", "__delitem__"}
+ITERTOOLS_VIEWS = {"filterfalse", "takewhile", "dropwhile", "islice", "chain"}
+LAZY_VIEWS = {"iter", "enumerate", "zip", "filter", "map"} | ITERTOOLS_VIEWS
+DICT_VIEWS = {"items", "keys", "values"}
+
+Key = tuple
+
+
+def container_key(F: Fn, at: Node | None, e: ast.AST | None, depth: int = 0) -> Key | None:
+    attrs: list[str] = []
+    while isinstance(e, ast.Attribute):
+        attrs.append(e.attr)
+        e = e.value
+    attrs.reverse()
+    if not isinstance(e, ast.Name) or at is None or depth > 4:
+        return None
+    bs = bindings(F, at, e)
+    if not bs:
+        return None
+    if all(b.kind == "param" for b in bs):
+        root: Key = ("param", e.id)
+    elif len(bs) == 1 and bs[0].kind == "value" and bs[0].path == () and bs[0].node is not None and isinstance(bs[0].expr, (ast.Name, ast.Attribute)):
+        base = container_key(F, bs[0].node, bs[0].expr, depth + 1)
+        if base is None:
+            return None
+        root = base
+    else:
+        root = ("local", e.id, tuple(sorted(d.node.id if d.node is not None else -1 for d in F.rd.reaching(at, e.id))))
+    return root + tuple(attrs)
+
+
+def _own_iter_attr(F: Fn) -> Key | None:
+    """iterating `self`: the attribute the class's own __iter__ hands out (`return iter(self._list)`), as a key suffix."""
+    cls = F.fi.cls
+    if cls is None:
+        return None
+    _, what = F.repo.lookup(cls, "__iter__")
+    if not isinstance(what, FuncInfo):
+        return None
+    G = fn_of(F.repo, what)
+    rets = [n for n in walk_no_nested(what.node) if isinstance(n, ast.Return) and n.value is not None]
+    yf = [n for n in walk_no_nested(what.node) if isinstance(n, ast.YieldFrom)]
+    got: set[Key] = set()
+    for r in rets:
+        ks = iterated_keys(G, G.cfg.node_of(r), r.value, 1, follow_self=False)
+        got |= ks or {()}
+    for y in yf:
+        ks = iterated_keys(G, G.cfg.node_of(y), y.value, 1, follow_self=False)
+        got |= ks or {()}
+    if len(got) == 1:
+        k = got.pop()
+        if len(k) >= 3 and k[0] == "param" and what.params and k[1] == what.params[0]:
+            return k[2:]
+    return None
+
+
+def iterated_keys(F: Fn, at: Node | None, e: ast.AST | None, depth: int = 0, follow_self: bool = True) -> set[Key]:
+    """the containers an iteration over e walks *in place* (no copy in between): e itself, iter()/enumerate()/zip()/
+    filter()/map() of it, a dict view of it, a generator expression over it, a local bound once to one of these, the
+    object itself when its class's __iter__ hands out an attribute, a package generator method that loops over it."""
+    if e is None or at is None or depth > 6:
+        return set()
+    if isinstance(e, ast.NamedExpr):
+        e = e.value
+    if isinstance(e, ast.GeneratorExp):
+        out: set[Key] = set()
+        for g in e.generators:
+            out |= iterated_keys(F, at, g.iter, depth + 1, follow_self)
+        return out
+    if isinstance(e, ast.Call):
+        f = e.func
+        fname = (dotted(f) or "").rsplit(".", 1)[-1]
+        if fname in LAZY_VIEWS and (isinstance(f, ast.Name) and not bindings(F, at, f) or fname in ITERTOOLS_VIEWS and (F.resolve(f) or "itertools.").startswith("itertools.")):
+            args = e.args[1:] if fname in ("filter", "map", "filterfalse", "takewhile", "dropwhile") else e.args[:1] if fname in ("iter", "enumerate", "islice") else e.args
+            if fname == "iter" and len(e.args) != 1:
+                return set()
+            out = set()
+            for a in args:
+                if not isinstance(a, ast.Starred):
+                    out |= iterated_keys(F, at, a, depth + 1, follow_self)
+            return out
+        callee = callee_of(F, e)
+        if callee is not None and callee is not F.fi and any(isinstance(x, (ast.Yield, ast.YieldFrom)) for x in walk_no_nested(callee.node)):
+            # a generator of the package: it walks what its own loops walk, for as long as the caller's loop runs
+            G = fn_of(F.repo, callee)
+            inner: set[Key] = set()
+            for n in walk_no_nested(callee.node):
+                if isinstance(n, (ast.For, ast.AsyncFor)) and any(isinstance(x, (ast.Yield, ast.YieldFrom)) for s_ in n.body for x in [s_, *walk_no_nested(s_)]):
+                    inner |= iterated_keys(G, G.cfg.node_of(n), n.iter, depth + 1, follow_self)
+                elif isinstance(n, ast.YieldFrom):
+                    inner |= iterated_keys(G, G.cfg.node_of(n), n.value, depth + 1, follow_self)
+            return {k2 for k in inner for k2 in [map_key(F, at, callee, e, k)] if k2 is not None}
+        if isinstance(f, ast.Attribute) and f.attr in DICT_VIEWS and not e.args and not e.keywords and callee is None:
+            k = container_key(F, at, f.value)
+            return {k} if k is not None and len(k) > 2 else set()
+        return set()
+    if isinstance(e, ast.Name):
+        bs = bindings(F, at, e)
+        if len(bs) == 1 and bs[0].kind == "value" and bs[0].path == () and bs[0].node is not None and isinstance(bs[0].expr, (ast.Call, ast.GeneratorExp)):
+            return iterated_keys(F, bs[0].node, bs[0].expr, depth + 1, follow_self)
+    if isinstance(e, (ast.Name, ast.Attribute)):
+        k = container_key(F, at, e)
+        if k is None:
+            return set()
+        if len(k) == 2 and k[0] == "param" and F.fi.cls is not None and F.fi.params and k[1] == F.fi.params[0]:
+            if not follow_self:
+                return set()
+            suffix = _own_iter_attr(F)
+            return {k + suffix} if suffix else set()
+        return {k}
+    return set()
+
+
+def map_key(F: Fn, at: Node | None, callee: FuncInfo, call: ast.Call, k: Key) -> Key | None:
+    """a key in the callee's terms (rooted at one of its parameters) in the caller's terms."""
+    if len(k) < 2 or k[0] != "param":
+        return None
+    args = call_args(callee, call)
+    p = k[1]
+    f = call.func
+    arg: ast.AST | None = args.get(p)
+    if arg is None and callee.cls is not None and callee.params and p == callee.params[0] and isinstance(f, ast.Attribute) and not _is_static(callee):
+        arg = f.value  # the receiver is the callee's self
+    if arg is None:
+        return None
+    base = container_key(F, at, arg)
+    return base + tuple(k[2:]) if base is not None else None
+
+
+def _len_of(e: ast.AST, xs: ast.AST) -> bool:
+    return isinstance(e, ast.Call) and isinstance(e.func, ast.Name) and e.func.id == "len" and len(e.args) == 1 and norm(e.args[0]) == norm(xs)
+
+
+def shrink_sites(F: Fn, stmts: t.Iterable[ast.AST], depth: int = 0, _seen: frozenset[str] = frozenset()) -> list[tuple[Node, Key, str]]:
+    """(CFG node, container, what) for the operations inside the statements that remove entries from a container or
+    insert one before its end: remove/pop/popitem/clear/insert/discard, `del c[i]`, `del c[a:b]`, `c[a:b] = ...`, and
+    calls of package helpers (methods on self, module-level and local functions) that do one of these to a parameter
+    or to an attribute of `self` - followed two levels.  Additions at the end (append, extend, +=) are not counted."""
+    out: list[tuple[Node, Key, str]] = []
+    todo: list[ast.AST] = []
+    for s_ in stmts:
+        todo.append(s_)
+        todo.extend(walk_no_nested(s_))
+    for x in todo:
+        tgt: list[tuple[ast.AST, str]] = []
+        if isinstance(x, ast.Call) and isinstance(x.func, ast.Attribute) and x.func.attr in SHRINKERS:
+            if x.func.attr == "insert" and len(x.args) == 2 and _len_of(x.args[0], x.func.value):
+                continue
+            tgt.append((x.func.value, f"`{norm(x)[:70]}`"))
+        elif isinstance(x, ast.Delete):
+            tgt += [(tg.value, f"`{norm(x)[:70]}`") for tg in x.targets if isinstance(tg, ast.Subscript)]
+        elif isinstance(x, (ast.Assign, ast.AnnAssign)):
+            tgs = x.targets if isinstance(x, ast.Assign) else [x.target]
+            flat = [e2 for tg in tgs for e2 in (tg.elts if isinstance(tg, (ast.Tuple, ast.List)) else [tg])]
+            tgt += [(tg.value, f"`{norm(tg)} = ...`") for tg in flat if isinstance(tg, ast.Subscript) and isinstance(tg.slice, ast.Slice)]
+        cn = F.cfg.node_of(x) if tgt or isinstance(x, ast.Call) else None
+        for recv, what in tgt:
+            k = container_key(F, cn, recv)
+            if k is None or cn is None:
+                continue
+            if len(k) == 2 and k[0] == "param" and F.fi.cls is not None and F.fi.params and k[1] == F.fi.params[0]:
+                continue  # a method called on self itself: judged by what the method does (followed below)
+            out.append((cn, k, what))
+        if isinstance(x, ast.Call) and depth < 2 and cn is not None:
+            callee = callee_of(F, x)
+            if callee is not None and callee is not F.fi and callee.fq not in _seen:
+                G = fn_of(F.repo, callee)
+                for _, k, what in shrink_sites(G, callee.node.body, depth + 1, _seen | {F.fi.fq, callee.fq}):
+                    k2 = map_key(F, cn, callee, x, k)
+                    if k2 is not None:
+                        out.append((cn, k2, f"`{norm(x)[:50]}` -> {callee.qualname}: {what}"))
+    return out
+
+
+def _inside(F: Fn, stmts: list[ast.stmt]) -> set[int]:
+    ids = {id(a) for s_ in stmts for a in [s_, *ast.walk(s_)]}
+    return {n.id for n in F.cfg.nodes if n.ast is not None and id(n.ast) in ids}
+
+
+def next_iteration_follows(F: Fn, head: Node, body: list[ast.stmt], site: Node) -> bool:
+    """after the operation at `site` the loop can go on to another iteration without leaving the loop first."""
+    inside = _inside(F, body)
+    seen: set[int] = set()
+    stack = [s_ for s_, _ in site.succs]
+    while stack:
+        n = stack.pop()
+        if n is head:
+            return True
+        if n.id in seen or n.id not in inside:
+            continue
+        seen.add(n.id)
+        stack.extend(s_ for s_, _ in n.succs)
+    return False
+
+
+class LoopFact(t.NamedTuple):
+    node: ast.AST  # the loop / comprehension
+    keys: set  # containers it walks in place
+    hits: list  # (what, container) of the size changes after which the iteration goes on
+
+
+def fmt_key(k: Key) -> str:
+    parts = [k[1], *k[3:]] if k[0] == "local" else list(k[1:])
+    return ".".join(str(p) for p in parts)
+
+
+def iteration_facts(F: Fn) -> list[LoopFact]:
+    """one fact per `for` loop / comprehension of the function that walks a nameable container in place."""
+    out: list[LoopFact] = []
+    for n in [F.fi.node, *walk_no_nested(F.fi.node)]:
+        if isinstance(n, (ast.For, ast.AsyncFor)):
+            head = F.cfg.node_of(n)
+            if head is None or head.ast is not n:
+                continue
+            keys = iterated_keys(F, head, n.iter)
+            if not keys:
+                continue
+            hits = [(what, k) for cn, k, what in shrink_sites(F, n.body) if k in keys and cn is not None and next_iteration_follows(F, head, n.body, cn)]
+            out.append(LoopFact(n, keys, hits))
+        elif isinstance(n, ast.While):
+            # an explicit iterator made before the loop and advanced with next() in it: `it = iter(xs)` / `while ...: f = next(it, END)`
+            head = F.cfg.node_of(n)
+            if head is None or head.ast is not n:
+                continue
+            region: list[ast.AST] = [n.test, *n.body]
+            inside = _inside(F, region)  # type: ignore[arg-type]
+            keys = set()
+            for c in [x for r_ in region for x in [r_, *walk_no_nested(r_)]]:
+                if isinstance(c, ast.Call) and isinstance(c.func, ast.Name) and c.func.id == "next" and c.args and isinstance(c.args[0], ast.Name):
+                    cn = F.cfg.node_of(c)
+                    bs = bindings(F, cn, c.args[0]) if cn is not None else []
+                    if len(bs) == 1 and bs[0].kind == "value" and bs[0].path == () and bs[0].node is not None and bs[0].node.id not in inside:
+                        keys |= iterated_keys(F, bs[0].node, bs[0].expr)
+            if not keys:
+                continue
+            hits = [(what, k) for cn, k, what in shrink_sites(F, n.body) if k in keys and cn is not None and next_iteration_follows(F, head, region, cn)]  # type: ignore[arg-type]
+            out.append(LoopFact(n, keys, hits))
+        elif isinstance(n, (ast.ListComp, ast.SetComp, ast.DictComp, ast.GeneratorExp)):
+            at = F.cfg.node_of(n)
+            if at is None:
+                continue
+            keys = set()
+            for g in n.generators:
+                keys |= iterated_keys(F, at, g.iter)
+            if not keys:
+                continue
+            parts: list[ast.AST] = [*( [n.key, n.value] if isinstance(n, ast.DictComp) else [n.elt]), *[c for g in n.generators for c in g.ifs]]
+            hits = [(what, k) for cn, k, what in shrink_sites(F, [ast.Expr(value=p) for p in parts]) if k in keys]
+            out.append(LoopFact(n, keys, hits))
+    return out
